@@ -2,7 +2,7 @@
 Require Import Cherab.Common.Qx.
 Require Import Cherab.Model.C13_Wrappers Cherab.Model.C13_Float.
 Require Import Cherab.Proofs.C13_Routing.
-From Coq Require Import Qabs Qround Lqa.
+From Coq Require Import Qabs Qround Lqa Qpower.
 From Coq Require Import Uint63 PrimFloat SpecFloat FloatOps.
 Open Scope Q_scope.
 
@@ -204,3 +204,157 @@ Proof.
   intros H1 H2 H3. unfold remainder_F. rewrite H1, H2.
   destruct ((fmod_F x p + p =? p)%float) eqn:E; [exact H3 | exact E].
 Qed.
+
+(* ---- narrowing the hypothesis on the rounding: "round to nearest" by its DEFINITION ---------------------------
+   [repr] is the set of representable numbers; rnd q is representable and no representable number is closer to q
+   (any tie-breaking rule).  Monotonicity is not assumed: what the range proof needs follows from nearestness. *)
+Section Nearest.
+  Variable repr : Q -> Prop.
+  Variable rnd : Q -> Q.
+  Hypothesis rnd_nearest : forall q f, repr f -> Qabs (rnd q - q) <= Qabs (f - q).
+
+  Lemma nearest_between lo hi q : repr lo -> repr hi -> lo <= q <= hi -> lo <= rnd q <= hi.
+  Proof.
+    intros Rlo Rhi [H1 H2]. split.
+    - destruct (Qlt_le_dec (rnd q) lo) as [L |]; [| assumption]. exfalso.
+      pose proof (rnd_nearest q lo Rlo) as N.
+      rewrite (Qabs_neg (rnd q - q)) in N by lra. rewrite (Qabs_neg (lo - q)) in N by lra. lra.
+    - destruct (Qlt_le_dec hi (rnd q)) as [L |]; [| assumption]. exfalso.
+      pose proof (rnd_nearest q hi Rhi) as N.
+      rewrite (Qabs_pos (rnd q - q)) in N by lra. rewrite (Qabs_pos (hi - q)) in N by lra. lra.
+  Qed.
+
+  Variables p pred_p : Q.
+  Hypothesis Hp : 0 < p.
+  Hypothesis repr_0 : repr 0.
+  Hypothesis repr_p : repr p.
+  Hypothesis pred_ok : 0 <= pred_p /\ pred_p < p.
+
+  Lemma remainder_nearest_range x : 0 <= remainder_rounded rnd pred_p x p /\ remainder_rounded rnd pred_p x p < p.
+  Proof.
+    unfold remainder_rounded.
+    destruct (Qeq_bool p 0) eqn:E; [apply Qeq_bool_iff in E; lra |].
+    destruct (fmod_Q_range x p Hp) as [Pos Neg].
+    destruct (Qltb (fmod_Q x p) 0) eqn:L.
+    - apply Qltb_lt in L.
+      assert (x < 0). { destruct (Qlt_le_dec x 0); [assumption |]. destruct (Pos q). lra. }
+      assert (B : 0 <= fmod_Q x p + p <= p) by (destruct Neg; lra).
+      pose proof (nearest_between 0 p _ repr_0 repr_p B) as [B0 B1].
+      destruct (Qeq_bool (rnd (fmod_Q x p + p)) p) eqn:Q.
+      + exact pred_ok.
+      + apply Qeq_bool_false_neq in Q. split; [assumption |].
+        destruct (Qlt_le_dec (rnd (fmod_Q x p + p)) p); [assumption |]. exfalso. apply Q. lra.
+    - apply Qltb_ge in L.
+      destruct (Qlt_le_dec x 0) as [N | N]; [destruct Neg; lra | destruct (Pos N); lra].
+  Qed.
+End Nearest.
+
+(* ---- the integer core of the binary64 fmod is the exact truncated remainder ------------------------------------ *)
+Lemma Qfloor_div_Z a b : (0 < b)%Z -> Qfloor (inject_Z a / inject_Z b) = (a / b)%Z.
+Proof.
+  intros Hb. destruct b as [| b | b]; try lia.
+  unfold Qdiv, Qinv, inject_Z, Qmult, Qfloor. cbn [Qnum Qden Z.mul Pos.mul].
+  rewrite Z.mul_1_r. reflexivity.
+Qed.
+
+Lemma fmod_Q_scaled (X P : Z) (s : Q) : (0 <= X)%Z -> (0 < P)%Z -> 0 < s ->
+  fmod_Q (inject_Z X * s) (inject_Z P * s) == inject_Z (X mod P) * s.
+Proof.
+  intros HX HP Hs.
+  assert (PQ : 0 < inject_Z P) by (change 0 with (inject_Z 0); rewrite <- Zlt_Qlt; exact HP).
+  assert (XQ : 0 <= inject_Z X) by (change 0 with (inject_Z 0); rewrite <- Zle_Qle; exact HX).
+  assert (E : inject_Z X * s / (inject_Z P * s) == inject_Z X / inject_Z P) by (field; split; lra).
+  unfold fmod_Q, Qtrunc.
+  assert (G : Qle_bool 0 (inject_Z X * s / (inject_Z P * s)) = true).
+  { apply Qle_bool_iff. rewrite E. apply Qle_shift_div_l; lra. }
+  rewrite G. rewrite (Qfloor_comp _ _ E), (Qfloor_div_Z X P HP).
+  rewrite (Z.mod_eq X P) by lia. rewrite inject_Z_minus, inject_Z_mult. ring.
+Qed.
+
+Lemma pow2_pos e : 0 < pow2 e.
+Proof. unfold pow2. apply Qpower_0_lt. reflexivity. Qed.
+Lemma pow2_split a b : pow2 (a + b) == pow2 a * pow2 b.
+Proof. unfold pow2. apply Qpower_plus. discriminate. Qed.
+Lemma inject_Z_pow2 n : (0 <= n)%Z -> inject_Z (2 ^ n) == pow2 n.
+Proof. intros H. unfold pow2. rewrite Zpower_Qpower by assumption. reflexivity. Qed.
+
+Lemma Qtrunc_comp q q' : q == q' -> Qtrunc q = Qtrunc q'.
+Proof.
+  intros E. unfold Qtrunc.
+  assert (B : Qle_bool 0 q = Qle_bool 0 q').
+  { destruct (Qle_bool 0 q) eqn:A, (Qle_bool 0 q') eqn:A'; try reflexivity.
+    - apply Qle_bool_iff in A. rewrite E in A. apply Qle_bool_iff in A. congruence.
+    - apply Qle_bool_iff in A'. rewrite <- E in A'. apply Qle_bool_iff in A'. congruence. }
+  rewrite B. destruct (Qle_bool 0 q'); [apply Qfloor_comp | apply Qceiling_comp]; exact E.
+Qed.
+Lemma fmod_Q_comp x x' p p' : x == x' -> p == p' -> fmod_Q x p == fmod_Q x' p'.
+Proof.
+  intros Ex Ep. unfold fmod_Q.
+  assert (D : x / p == x' / p') by (rewrite Ex, Ep; reflexivity).
+  rewrite (Qtrunc_comp _ _ D), Ex, Ep. reflexivity.
+Qed.
+
+(* value of a binary64 magnitude (mantissa, exponent) *)
+Definition mag (m : positive) (e : Z) : Q := inject_Z (Zpos m) * pow2 e.
+
+Lemma fmod_int_exact mx ex mp ep :
+  let '(r, e) := fmod_int mx ex mp ep in
+  inject_Z r * pow2 e == fmod_Q (mag mx ex) (mag mp ep)
+  /\ (0 <= r)%Z /\ inject_Z r * pow2 e < mag mp ep /\ inject_Z r * pow2 e <= mag mx ex.
+Proof.
+  unfold fmod_int. set (e := Z.min ex ep).
+  assert (Dx : (0 <= ex - e)%Z) by lia. assert (Dp : (0 <= ep - e)%Z) by lia.
+  set (X := (Zpos mx * 2 ^ (ex - e))%Z). set (P := (Zpos mp * 2 ^ (ep - e))%Z).
+  assert (HX : (0 <= X)%Z) by (unfold X; apply Z.mul_nonneg_nonneg; [lia | apply Z.pow_nonneg; lia]).
+  assert (HP : (0 < P)%Z) by (unfold P; apply Z.mul_pos_pos; [lia | apply Z.pow_pos_nonneg; lia]).
+  assert (Vx : mag mx ex == inject_Z X * pow2 e).
+  { unfold mag, X. rewrite inject_Z_mult, inject_Z_pow2 by assumption.
+    replace ex with ((ex - e) + e)%Z at 1 by lia. rewrite pow2_split. ring. }
+  assert (Vp : mag mp ep == inject_Z P * pow2 e).
+  { unfold mag, P. rewrite inject_Z_mult, inject_Z_pow2 by assumption.
+    replace ep with ((ep - e) + e)%Z at 1 by lia. rewrite pow2_split. ring. }
+  pose proof (pow2_pos e) as Se.
+  pose proof (Z.mod_pos_bound X P HP) as [M0 M1].
+  assert (M2 : (X mod P <= X)%Z) by (apply Z.mod_le; assumption).
+  split; [| split; [assumption | split]].
+  - rewrite (fmod_Q_comp _ _ _ _ Vx Vp). symmetry. apply fmod_Q_scaled; assumption.
+  - rewrite Vp. apply Qmult_lt_r; [assumption |]. rewrite <- Zlt_Qlt. exact M1.
+  - rewrite Vx. apply Qmult_le_r; [assumption |]. rewrite <- Zle_Qle. exact M2.
+Qed.
+
+(* ---- how far the rounded algorithm is from the exact reduction (the tolerance of the tie, 2^-52 p, is this bound for
+   binary64: half a unit in the last place of a number below p, or the distance from p to its predecessor) ------------- *)
+Section NearestClose.
+  Variable repr : Q -> Prop.
+  Variable rnd : Q -> Q.
+  Hypothesis rnd_nearest : forall q f, repr f -> Qabs (rnd q - q) <= Qabs (f - q).
+  Variables p pred_p : Q.
+  Hypothesis Hp : 0 < p.
+  Hypothesis repr_pred : repr pred_p.
+  Hypothesis pred_ok : 0 <= pred_p /\ pred_p < p.
+
+  Lemma remainder_nearest_close x :
+    let s := fmod_Q x p + p in
+    remainder_rounded rnd pred_p x p == remainder_Q x p
+    \/ (s == remainder_Q x p /\
+        (Qabs (remainder_rounded rnd pred_p x p - s) <= Qabs (rnd s - s)
+         \/ Qabs (remainder_rounded rnd pred_p x p - s) <= p - pred_p)).
+  Proof.
+    intros s. pose proof (remainder_alg_Q_spec x p Hp) as Spec.
+    unfold remainder_rounded, remainder_alg_Q in *.
+    destruct (Qeq_bool p 0) eqn:E; [apply Qeq_bool_iff in E; lra |].
+    destruct (fmod_Q_range x p Hp) as [Pos Neg].
+    destruct (Qltb (fmod_Q x p) 0) eqn:L; [| left; exact Spec].
+    apply Qltb_lt in L. right. split; [exact Spec |]. fold s.
+    assert (x < 0). { destruct (Qlt_le_dec x 0); [assumption |]. destruct (Pos q). lra. }
+    assert (B : 0 < s <= p) by (unfold s; destruct Neg; lra).
+    destruct (Qeq_bool (rnd s) p) eqn:Q.
+    - right. apply Qeq_bool_iff in Q.
+      pose proof (rnd_nearest s pred_p repr_pred) as N. rewrite Q in N.
+      rewrite (Qabs_pos (p - s)) in N by lra.
+      destruct (Qlt_le_dec s pred_p) as [Lt | Ge].
+      + rewrite (Qabs_pos (pred_p - s)) in N by lra. lra.
+      + rewrite (Qabs_neg (pred_p - s)) by lra. lra.
+    - left. apply Qle_refl.
+  Qed.
+End NearestClose.
